@@ -361,3 +361,135 @@ Print Assumptions C04_moments_halves.
 Print Assumptions C04_dw_rebalancing_refuted.
 Print Assumptions C04_dw_version2_refuted.
 Print Assumptions C04_hat_okb_sound.
+
+(* ================================================================================================================== *)
+(* Phase 3 (appended).
+   Extend-split: the hypothesis "the monomial moments of the areas add up to the moment of the domain" of C04_es_multilinear_exact is now a
+   THEOREM for every reachable state of every history (induction of C07's Proofs/ESInv.v repeated with the moment predicate next to
+   Parts, Proofs/ESMoments.v): the per-state checker moments_additive can never fail on a model state. *)
+From SG Require Import Model.ESInterp Proofs.ESGeom Proofs.ESInv Proofs.ESMoments Proofs.ESReach.
+Theorem C04_es_reachable_moments_additive : forall dim version nrbe lmin lmax base auto single a b bens0 hist,
+  wfbox a b -> length a = dim -> (lmin <= lmax)%Z ->
+  moments_additive a b (map abox (st_objs (run_events (start_state dim version nrbe lmin lmax base auto single a b bens0) hist))) = true.
+Proof. exact reachable_moments_additive. Qed.
+Theorem C04_es_reachable_moments_add : forall dim version nrbe lmin lmax base auto single a b bens0 hist ex,
+  wfbox a b -> length a = dim -> (lmin <= lmax)%Z -> length ex = dim ->
+  sumQ (map (fun bx : box => bmom (fst bx) (snd bx) ex)
+            (map abox (st_objs (run_events (start_state dim version nrbe lmin lmax base auto single a b bens0) hist))))
+  = bmom a b ex.
+Proof. exact reachable_moments_add. Qed.
+(* every reachable state whose areas carry valid, non-empty local combinations (all versions; state_areas = box + computed component grids) *)
+Theorem C04_es_reachable_multilinear_exact : forall dim version nrbe lmin lmax base auto single a b bens0,
+  wfbox a b -> length a = dim -> (lmin <= lmax)%Z -> forall hist exps,
+  let st := run_events (start_state dim version nrbe lmin lmax base auto single a b bens0) hist in
+  (forall x, In x (st_objs st) -> valid_local_combi dim (area_grids (st_cp st) x) = true /\ area_grids (st_cp st) x <> []) ->
+  length exps = dim -> Forall (fun k => (k <= 1)%nat) exps ->
+  es_integral a b (state_areas st) exps = bmom a b exps.
+Proof. exact es_reachable_multilinear_exact. Qed.
+(* coarsening version 0 (the default), dimension >= 2: UNCONDITIONAL for every history *)
+Theorem C04_es_reachable_multilinear_exact_v0 : forall n nrbe lmin lmax base auto single a b bens0 hist exps,
+  wfbox a b -> length a = S (S n) -> (lmin <= lmax)%Z ->
+  length exps = S (S n) -> Forall (fun k => (k <= 1)%nat) exps ->
+  es_integral a b (state_areas (run_events (start_state (S (S n)) 0 nrbe lmin lmax base auto single a b bens0) hist)) exps
+  = bmom a b exps.
+Proof. exact es_reachable_multilinear_exact_v0. Qed.
+Print Assumptions C04_es_reachable_moments_additive.
+Print Assumptions C04_es_reachable_moments_add.
+Print Assumptions C04_es_reachable_multilinear_exact.
+Print Assumptions C04_es_reachable_multilinear_exact_v0.
+
+(* non-vacuity: [0,2] x [-1,1], lmin 1, lmax 2, two driver steps and an observation: 16 areas, lmax raised to 3, integral of x is 4 *)
+Definition es_a := [q 0 1; q (-1) 1].
+Definition es_b := [q 2 1; q 1 1].
+Definition es_hist := [Step (mkStep [] []); Observe; Step (mkStep [] [])].
+Definition es_st := run_events (start_state 2 0 1 1 2 1 false false es_a es_b []) es_hist.
+Example C04_es_reachable_nonvacuous :
+  length (st_objs es_st) = 16%nat /\ ExtendSplit.st_lmax es_st = 3%Z /\ es_integral es_a es_b (state_areas es_st) [1%nat; 0%nat] = q 4 1.
+Proof.
+  split; [vm_compute; reflexivity|]. split; [vm_compute; reflexivity|].
+  unfold es_st. rewrite (C04_es_reachable_multilinear_exact_v0 0 1 1 2 1 false false es_a es_b [] es_hist [1%nat; 0%nat]).
+  - apply Qc_is_canon. vm_compute. reflexivity.
+  - unfold es_a, es_b, q. simpl. split; [|split]; try exact I; apply Qclt_alt; vm_compute; reflexivity.
+  - reflexivity.
+  - discriminate.
+  - reflexivity.
+  - repeat constructor.
+Qed.
+
+(* ---- cell strategy (Model/CellScheme.v: cell_dict, container, RefinementObjectCell.refine with the hierarchical-parent test,
+   evaluate_operation_area = inclusion-exclusion over the 2^d relevant parents, compute_subcell_with_interpolation) ----
+   For EVERY sequence of refinement rounds (any positions) every multilinear monomial is integrated exactly, whenever the evaluation returns
+   a value (no KeyError for a relevant parent; observed on every explored state) and the initial state passes the verified checker
+   cell_init_okb (evaluated per explored (dim, lmin, domain); the general proof that initialize_refinement tiles the domain is NOT done:
+   it needs 'a child created by split_cell_arbitrary_dim is not yet in cell_dict', a geometric uniqueness statement). *)
+From SG Require Import Model.CellScheme Proofs.CellExactA Proofs.CellExactB.
+Theorem C04_cell_multilinear_exact : forall dim lmin a b rounds ex v,
+  cell_init_okb dim lmin a b = true -> length ex = dim -> Forall (fun n => (n <= 1)%nat) ex ->
+  cell_integral (cell_run (cell_init dim lmin a b) rounds) (monomial ex) = Some v -> v = bmom a b ex.
+Proof. exact cell_multilinear_exact. Qed.
+(* the ingredients, each for all inputs: the interpolant of ANY non-degenerate cell integrates a multilinear monomial over any sub-box exactly;
+   the inclusion-exclusion coefficients of the relevant parents sum to 1 for a cell without parents and to 0 otherwise; the invariant is
+   preserved by every refinement; the checker is sound *)
+Theorem C04_cell_subcell_integral_multilinear : forall dim cellk sub ex,
+  wfbox (fst cellk) (snd cellk) -> length (fst cellk) = dim ->
+  length (fst sub) = dim -> length (snd sub) = dim -> length ex = dim -> Forall (fun k => (k <= 1)%nat) ex ->
+  subcell_integral dim cellk sub (monomial ex) = bmom (fst sub) (snd sub) ex.
+Proof. exact subcell_integral_multilinear. Qed.
+Theorem C04_cell_relevant_parents_coeff_sum : forall a b lmin dim k lv,
+  coeff_sum (relevant_parents a b lmin dim k lv) = if is_base lmin dim lv then 1%Z else 0%Z.
+Proof. exact relevant_parents_coeff_sum. Qed.
+Theorem C04_cell_refine_preserves_invariant : forall ex st k, CInv ex st -> In k (cs_objs st) -> CInv ex (refine_cell st k).
+Proof. exact refine_cell_inv. Qed.
+Theorem C04_cell_state_okb_sound : forall st ex, cstate_okb st = true -> length ex = cs_dim st -> Forall (fun n => (n <= 1)%nat) ex -> CInv ex st.
+Proof. exact cstate_okb_sound. Qed.
+Print Assumptions C04_cell_multilinear_exact.
+Print Assumptions C04_cell_subcell_integral_multilinear.
+Print Assumptions C04_cell_relevant_parents_coeff_sum.
+Print Assumptions C04_cell_refine_preserves_invariant.
+Print Assumptions C04_cell_state_okb_sound.
+
+(* non-vacuity: [0,1] x [-1,1], lmin 1, two rounds of refinements: 12 container cells, integral of x is 1 *)
+Definition cell_a := [q 0 1; q (-1) 1].
+Definition cell_b := [q 1 1; q 1 1].
+Definition cell_rounds := [[0%nat]; [1%nat; 4%nat]].
+Example C04_cell_nonvacuous :
+  cell_init_okb 2 1 cell_a cell_b = true /\
+  length (cs_objs (cell_run (cell_init 2 1 cell_a cell_b) cell_rounds)) = 12%nat /\
+  cell_integral (cell_run (cell_init 2 1 cell_a cell_b) cell_rounds) (monomial [1%nat; 0%nat]) = Some (q 1 1).
+Proof.
+  split; [vm_compute; reflexivity|]. split; [vm_compute; reflexivity|].
+  destruct (cell_integral (cell_run (cell_init 2 1 cell_a cell_b) cell_rounds) (monomial [1%nat; 0%nat])) as [v|] eqn:E.
+  - f_equal. rewrite (C04_cell_multilinear_exact 2 1 cell_a cell_b cell_rounds [1%nat; 0%nat] v); [apply Qc_is_canon; vm_compute; reflexivity | vm_compute; reflexivity | reflexivity | repeat constructor | exact E].
+  - exfalso. assert (H : match cell_integral (cell_run (cell_init 2 1 cell_a cell_b) cell_rounds) (monomial [1%nat; 0%nat]) with Some _ => true | None => false end = true)
+      by (vm_compute; reflexivity). rewrite E in H. discriminate.
+Qed.
+
+(* ---- Phase 3, item 3: the history invariant for versions 6/7/8 WITHOUT rebalancing.
+   The search for the true invariant gave: an initial tree node of level k in dimension d belongs to the stripe of component level
+   max(lmin, k) + m_d, where m_d is the subtraction value of its (unrefined) region; a tensor hat keeps a tau in the index set iff the
+   sum over the dimensions of these m_d stays <= max_d (lmax_d - lmax_initial).  The arithmetic of version 7 satisfies
+   sum_d m_d <= max_d sv_d on everything enumerated (dimensions 2,3, coarsenings <= 5); the loops of versions 6 and 8 do NOT in three or more
+   dimensions (max coarsenings (1,2,2), sv (1,2,2) -> m = (1,1,1)), and this arithmetic counterexample is realised by a history: the
+   statement is FALSE for the default version 6 (and 8) in d = 3 - a new finding, reproduced on the implementation (C04-dw-version-6-8-3d):
+   d = 3, lmin 1, lmax 4, no rebalancing: refine the last interval of every dimension, then the last interval of dimensions 1 and 2 again
+   (lmax = (5,6,6)): the hat of level (2,2,2), index (1,1,1) of the initial space is integrated as 0 instead of 1/64; version 7 keeps it. *)
+Definition o3 (version : Z) (bd : bool) : dw_opts :=
+  mkOpts version false bd (Q2Qc (9 # 10)) (rebalance_dec_exact (Q2Qc (1 # 10))) (v3_dec_exact 3).
+Definition a3 := [q 0 1; q 0 1; q 0 1].
+Definition b3 := [q 1 1; q 1 1; q 1 1].
+Definition lastb (n : nat) : list Qc := repeat (q 0 1) (n - 1) ++ [q 1 1].
+Definition zerob (n : nat) : list Qc := repeat (q 0 1) n.
+Definition steps3 := [ [lastb 16; lastb 16; lastb 16]; [zerob 17; lastb 17; lastb 17] ].
+Definition hat222_exact_after (version : Z) (bd : bool) (steps : list (list (list Qc))) : option (bool * list Z) :=
+  match dw_init 3 1 4 a3 b3 with
+  | Some st0 => match dw_run (o3 version bd) steps st0 with
+                | Some st => Some (dw_keeps_hat (o3 version bd) st a3 b3 ([2; 2; 2]%Z, [1; 1; 1]%Z), st_lmax st)
+                | None => None end
+  | None => None end.
+Theorem C04_dw_version6_8_3d_refuted :
+  existsb (fun ji : lv * lv => lv_eqb (fst ji) [2; 2; 2]%Z && lv_eqb (snd ji) [1; 1; 1]%Z) (initial_hats 3 1 4 false) = true /\
+  hat222_exact_after 6 false [] = Some (true, [4; 4; 4]%Z) /\ hat222_exact_after 6 false steps3 = Some (false, [5; 6; 6]%Z) /\
+  hat222_exact_after 8 false steps3 = Some (false, [5; 6; 6]%Z) /\ hat222_exact_after 7 false steps3 = Some (true, [5; 6; 6]%Z) /\
+  hat222_exact_after 6 true steps3 = Some (false, [5; 6; 6]%Z).
+Proof. vm_compute. repeat split. Qed.
+Print Assumptions C04_dw_version6_8_3d_refuted.
